@@ -309,6 +309,18 @@ Fixpoint abort (fuel : nat) (s : st) (f : uid) (d : bool) : res st :=
       if snd r then epilogue_abort (fst r) f d else Ok (fst r))
   end.
 
+(* _abort_flow with the optional keyword `restart_flow` (default True; a tree that has the
+   keyword passes False for an activated flow that fails before it ever waited): only the
+   outermost call can carry it, the recursive calls use the default; restart_flow = False
+   suppresses the restart like deactivate_flow does, and nothing else. *)
+Definition abort_top (r : bool) (fuel : nat) (s : st) (f : uid) (d : bool) : res st :=
+  match fuel with
+  | O => Err EFuel
+  | S n =>
+    bind (prologue (abort n) skip_abort s f d) (fun r0 =>
+      if snd r0 then epilogue_abort (fst r0) f (d || negb r) else Ok (fst r0))
+  end.
+
 (* _finish_flow(state, flow_state, matching_scores, deactivate_flow); every recursive call is
    to _abort_flow *)
 Definition finish (fuel : nat) (s : st) (f : uid) (d : bool) : res st :=
